@@ -26,17 +26,30 @@ class TPDomain(EvDomain):
         return None
 
     def call_result(self, ex, n, q, base, on, ov, vals, st, fr):
-        if base == 'size' and on == 'm_pool': return Lin.sym('poolsize')
+        if base == 'size' and on == 'm_pool': return Lin.const(0) if self.atom('pool_empty') is True else Lin.sym('poolsize')
+        if base == 'empty' and on == 'm_pool' and self.atom('pool_empty') is not None: return self.atom('pool_empty')
+        if base in ('operator==', 'operator!=') and self.atom('pool_empty') is True:
+            ops_ = [ex.read(x.loc, st, n) if isinstance(x, Ref) else x for x in ([ov] + list(vals)) if x is not None]
+            if len(ops_) == 2 and all(isinstance(x, Sym) for x in ops_) and {x.name for x in ops_} == {'m_pool.begin', 'm_pool.end'}:
+                return base == 'operator=='      # an empty pool: begin() == end(), no traversal is entered
         if base == 'empty' and on == 'm_queue':
             v = self.atom('queue_empty'); return v if v is not None else Unknown('m_queue.empty')
         return super().call_result(ex, n, q, base, on, ov, vals, st, fr)
 
+    def container_empty(self, X):
+        return self.atom('pool_empty') if X == 'm_pool' else super().container_empty(X)
+
     def compare(self, ex, op, l, r, n, st, fr):
+        import operator
+        OPF = {'<': operator.lt, '<=': operator.le, '>': operator.gt, '>=': operator.ge, '==': operator.eq, '!=': operator.ne}
+        if op in ('==', '!=') and isinstance(l, Sym) and isinstance(r, Sym) and {l.name, r.name} == {'m_pool.begin', 'm_pool.end'} and self.atom('pool_empty') is True:
+            return op == '=='          # an empty pool: begin() == end(), no traversal is entered
         ll, rl = as_lin(l), as_lin(r)
         if ll is None or rl is None: return None
         d = ll - rl
-        import operator
-        OPF = {'<': operator.lt, '<=': operator.le, '>': operator.gt, '>=': operator.ge, '==': operator.eq, '!=': operator.ne}
+        if self.atom('pool_empty') is True and 'poolsize' in d.t:
+            d = Lin({k: v for k, v in d.t.items() if k != 'poolsize'}, d.c)         # |pool| = 0 in this row
+            if not d.t: return OPF[op](d.c, 0)
         flip = {'<': '>', '>': '<', '<=': '>=', '>=': '<=', '==': '==', '!=': '!='}
         key = None
         if d.t == {'max': 1, 'poolsize': -1} and d.c == 0: key = 'max_vs_size'
@@ -370,6 +383,21 @@ class TPAnalysis:
                 notif = [e for e in E if e.kind in ('notify_one', 'notify_all')]
                 okn = bool(notif) and bool(enq) and E.index(notif[-1]) > E.index(enq[0])
                 self.add('TP.5', okn, f'row {row}: a worker is notified after the task is queued', notif[-1].site if notif else site, '' if okn else 'no notification after the insertion: an idle worker never sees the task')
+        # TP.8b: with no worker at all (a fresh pool, or the first start() after stop() emptied m_pool) the submitted task can only be
+        # run by a worker this call creates
+        for neg, running in itertools.product([False, True], [True, False]):
+            sgn = '<' if neg else '>'
+            dom = TPDomain(dict(pool_empty=True, max_vs_size=sgn, max_sign=sgn, running=running))
+            row = f'(|pool| = 0, max {"< 0" if neg else "> 0"}, flag={running})'
+            n += 1
+            for P, E in run_paths(self.facts, f, dom):
+                if P.end in ('throw', 'noreturn'): continue
+                th = evs(E, 'thread')
+                inst = f'row {row}: with an empty pool start() creates the worker that will run the task'
+                if th: self.add('TP.8', True, inst, th[0].site); continue
+                forks = [c for c, val, how in P.decisions if how == 'fork']
+                if forks: self.add('TP.8', None, inst, forks[0].shortloc(), f'this path creates no worker; it depends on `{forks[0].text()[:80]}`, whose value in a pool without workers is not followed')
+                else: self.add('TP.8', False, inst, site, f'no worker is created although the pool has none {row}: the task stays queued until some later start() happens to spawn one (after stop() the restart does nothing)', )
         self.n_start_rows = n
         # templated start: every instantiation allocates a TRunnable and hands it to start(Runnable*)
         inst = [g for g in self.facts.by_name_prefix(f'{TP}::start<')] if hasattr(self.facts, 'by_name_prefix') else [g for g in self.facts.fns if g.gname == f'{TP}::start' and g.d.get('instantiation')]
